@@ -7302,12 +7302,35 @@ fn eval_block(env: &mut Env, expr_value_is_used: bool, block: &Block) {
     }
 }
 
+/// When `break` or `continue` discards the pending step
+/// (`expr_state`, `expr`), does that step own a bindings block that
+/// it would have popped?
+///
+/// `if`, `match` and `try` pop their branch block in the
+/// `EvaluatedSubexpressions` step.
+fn discarded_step_owns_block(expr_state: ExpressionState, expr: &Expression) -> bool {
+    matches!(expr_state, ExpressionState::EvaluatedSubexpressions)
+        && matches!(
+            expr.expr_,
+            Expression_::If(_, _, _) | Expression_::Match(_, _) | Expression_::Try(_, _, _)
+        )
+}
+
 fn eval_break(env: &mut Env, expr_value_is_used: bool) {
     // Pop all the currently evaluating expressions until we are no
     // longer inside the innermost loop.
     while let Some((expr_state, expr)) = env.current_frame_mut().exprs_to_eval.pop() {
         match &expr.expr_ {
             Expression_::While(_, _) => {
+                // If we're leaving the loop body, pop its bindings
+                // block, as the `DoneRunBlock` step would have done.
+                if matches!(
+                    expr_state,
+                    ExpressionState::PartiallyEvaluated(BlockState::DoneRunBlock)
+                ) {
+                    env.current_frame_mut().bindings.pop_block();
+                }
+
                 env.current_frame_mut()
                     .exprs_to_eval
                     .push((ExpressionState::EvaluatedSubexpressions, Rc::clone(&expr)));
@@ -7318,10 +7341,25 @@ fn eval_break(env: &mut Env, expr_value_is_used: bool) {
                 // We're exiting the loop early, we need to follow the
                 // pattern of `eval_for_in` and maintain stack
                 // discipline for values pushed for the loop body.
-                env.pop_value()
-                    .expect("Value used by `for` should be present");
-                env.pop_value()
-                    .expect("Index used by `for` should be present");
+                if matches!(
+                    expr_state,
+                    ExpressionState::PartiallyEvaluated(BlockState::DoneRunBlock)
+                ) {
+                    env.pop_value()
+                        .expect("Value used by `for` should be present");
+                    env.pop_value()
+                        .expect("Index used by `for` should be present");
+
+                    // The body's bindings block is popped by the
+                    // `EvaluatedSubexpressions` step below, in place
+                    // of the block pushed on normal termination.
+                } else {
+                    // We're still evaluating the iterated value, so
+                    // only the index has been pushed.
+                    env.pop_value()
+                        .expect("Index used by `for` should be present");
+                    env.push_binding_block();
+                }
 
                 env.current_frame_mut()
                     .exprs_to_eval
@@ -7333,10 +7371,7 @@ fn eval_break(env: &mut Env, expr_value_is_used: bool) {
                 // We're exiting a block that wasn't part of a loop
                 // (i.e. a match case or an if/else block), so we
                 // should pop the bindings block here too.
-                if matches!(
-                    expr_state,
-                    ExpressionState::PartiallyEvaluated(BlockState::DoneRunBlock)
-                ) {
+                if discarded_step_owns_block(expr_state, &expr) {
                     env.current_frame_mut().bindings.pop_block();
                 }
 
@@ -7365,6 +7400,12 @@ fn eval_continue(env: &mut Env) {
 
             env.push_expr_to_eval(expr_state, expr);
             break;
+        }
+
+        // We're exiting a match case or an if/else block, so pop its
+        // bindings block.
+        if discarded_step_owns_block(expr_state, &expr) {
+            env.current_frame_mut().bindings.pop_block();
         }
     }
 }
